@@ -55,7 +55,7 @@ func c01PremiseDispatch(c *core.Ctx) {
 			c.Check(okThen && okElse, rC01Prem, f.Name+":Atom", cc.Pos(), "delta-prefixed atoms read e.deltaStore, all others e.store", fmt.Sprintf("the branch on isDeltaPredicate must read e.deltaStore for delta atoms (ok=%v) and e.store otherwise (ok=%v)", okThen, okElse))
 		}
 		if cc := ts.Cases["ast.TemporalLiteral"]; cc != nil {
-			src := core.Src(c.Prog.Fset, cc)
+			src := core.SrcFull(c.Prog.Fset, cc)
 			ok := strings.Contains(src, "temporalDeltaStore") && strings.Contains(src, "temporalStore") && core.ContainsCall(info, cc, false, "engine.isDeltaPredicate")
 			c.Check(ok, rC01Prem, f.Name+":TemporalLiteral", cc.Pos(), "delta-prefixed temporal literals read the temporal delta store", "a temporal literal must choose between e.temporalStore and e.temporalDeltaStore by isDeltaPredicate")
 		}
